@@ -122,6 +122,23 @@ def pinned_cases():
                             "seed": 9000 + len(out), "budget": 9000, "yield": yl, "inline": 0,
                             "strategy": ["uniform", "eagerD", "starveD"][k % 3],
                             "signals": [[k, 2], [k + 1 + k % 3, 20]], "signals_case": True})
+    # (d) resource limits x fanout: the descriptor limit of the process must not change what the fanout means
+    for nofile in (30, 32, 33, 40, 64):
+        for f in (1, 2):
+            out.append({"fanout": f, "hosts": [{"name": "r%d" % i, "out": [[0, ("l%d\n" % i).encode().hex()]]}
+                                               for i in range(3)],
+                        "seed": 9000 + len(out), "budget": 6000, "yield": "fan", "inline": 1,
+                        "strategy": ["uniform", "starveD", "eagerD"][len(out) % 3],
+                        "opts": {"labels": 1, "sopt": 0, "nofile": nofile}})
+    # (e) pthread_create fails once (EAGAIN) for the worker of target i, while others run or not: pdsh may give up
+    #     (exit non-zero, as it does) or try again -- but it must not go on WITHOUT that target, nor hang
+    for i in range(3):
+        for f in (1, 2, 3):
+            out.append({"fanout": f, "hosts": [{"name": "k%d" % j, "out": [[0, ("l%d\n" % j).encode().hex()]]}
+                                               for j in range(3)],
+                        "seed": 9000 + len(out), "budget": 6000, "yield": "fan", "inline": 0,
+                        "strategy": ["uniform", "starveD", "eagerD"][len(out) % 3],
+                        "opts": {"labels": 1, "sopt": 0, "createfail": i}, "createfail_case": True})
     for c in out:
         c["pinned"] = True
     return out
@@ -143,8 +160,8 @@ def replay_case(ctx, prop, exe, variant):
     if not isinstance(case, dict) or "hosts" not in case:
         ctx.log("replay: the file names no schedule; re-run the tier instead")
         return None
-    mem = "mem" in case.get("yield", "")
-    if mem and getattr(ctx, "exe_mem", None):
+    mem = "mem" in case.get("yield", "") or bool(case.get("createfail_case"))
+    if "mem" in case.get("yield", "") and getattr(ctx, "exe_mem", None):
         exe = ctx.exe_mem                   # recorded at memory-access granularity
     res = sched.run_case(exe, case, ctx.scratch)
     if mem:
@@ -154,7 +171,8 @@ def replay_case(ctx, prop, exe, variant):
     if bad is not None:
         ctx.disagreement("Fan LTS (%s variant) vs dsh.c" % variant,
                          "projected trace line %d `%s`: %s" % (bad[0], bad[1], bad[2]), pack(res))
-    offs = [o for o in sched.offenders(res) if o[0] in (prop, "*")]
+    offs = [o for o in sched.offenders(res) if o[0] in (prop, "*") and
+            not (case.get("createfail_case") and o[1].startswith("exit:") and o[1] != "exit:0")]
     ctx.log("replay: monitors %s" % (res["M"],))
     for p, sig, what in offs:
         ctx.log("replay: %s %s" % (sig, what))
@@ -243,7 +261,8 @@ def explore_all(ctx, prop, exe_san, exe, variant, cov, dist):
         # two calls to the earlier call, which is exactly what those runs do not do
         batches = [sched.project_fan(r, variant, relay=sched.relay_capable(r["case"]))
                    if r["crash"] is None and not r["bug"] and
-                   "mem" not in r["case"].get("yield", "") and not r["case"].get("signals_case") else None
+                   "mem" not in r["case"].get("yield", "") and not r["case"].get("signals_case") and
+                   not r["case"].get("createfail_case") else None
                    for r in results]
         dist["through_composed_acceptor"] = dist.get("through_composed_acceptor", 0) + \
             sum(1 for b in batches if b is not None and b[0].startswith("initr"))
@@ -282,6 +301,8 @@ def explore_all(ctx, prop, exe_san, exe, variant, cov, dist):
                     continue              # a host given up on has, by design, not been relayed completely
                 if r["case"].get("signals_case") and sig in ("not-started", "output-not-delivered", "parked-with-room"):
                     continue              # the user cancelled the pending targets
+                if r["case"].get("createfail_case") and sig.startswith("exit:") and sig != "exit:0":
+                    continue              # thread creation failed: giving up with an error is legitimate
                 if p in (prop, "*"):
                     if not is_known(sig):
                         newcount[0] += 1
